@@ -65,11 +65,14 @@ def run(chk):
         lines += ls; cid += max(per // 2, 3)
     # dimension-changing operators in higher dimension (permutations with several cycles, folds of several
     # dimensions, concatenations): the references are renamings, cheap for the verified deciders
-    hd = 40 if chk.quick else 600
+    hd = 150 if chk.quick else 1500
     lines += gen_poly.make_cases(chk.seed * 1000 + 1700, hd, maxdim=5, nobj=2, steps=3, pq=0.0, pobs=0.2, start=cid, thin=True,
-                                 ops=["map_space_dimensions", "remove_space_dimensions", "remove_higher_space_dimensions", "expand_space_dimension",
+                                 ops=["map_space_dimensions", "map_space_dimensions", "map_space_dimensions", "remove_space_dimensions", "remove_higher_space_dimensions", "expand_space_dimension",
                                       "fold_space_dimensions", "add_space_dimensions_and_embed", "add_space_dimensions_and_project", "concatenate_assign"])
     cid += hd
+    # conversions from rational boxes (both topologies): open / closed / infinite ends, small rationals with equal
+    # numerators and different denominators, coinciding and crossing ends
+    lines += gen_poly.make_box_cases(chk.seed * 1000 + 2700, 200 if chk.quick else 3000, start=300000)
     # binary operators on pairs of boxes / slabs sharing, touching or crossing faces
     lines += gen_poly.make_boxpair_cases(chk.seed * 1000 + 1900, 150 if chk.quick else 3000,
                                          ["poly_hull_assign", "poly_difference_assign", "intersection_assign", "simplify_using_context_assign",
